@@ -35,7 +35,7 @@ end cfg
 
 macro "pyv_eval" : tactic => `(tactic|
   simp [srcPy, pyMethodOf, runMethod, exec, handle, evalE, evalArgs, builtin, pvIn, ofExcept,
-    specMatches, excMatches, globOf, attrOf, pvIs, pvLt, pvLe, pvEq, selfCfg, optFloat, optInt, PV.truthy, toRes])
+    specMatches, excMatches, globOf, attrOf, pvIs, pvLt, pvLe, pvEq, selfCfg, selfCfgE, optFloat, optInt, PV.truthy, toRes])
 
 macro "cfg_simp" : tactic => `(tactic|
   simp only [cfg_rf_low, cfg_rf_high, cfg_rf_el, cfg_rf_eh, cfg_rf_v, cfg_ri_low, cfg_ri_high, cfg_ri_el, cfg_ri_eh, cfg_ri_v,
@@ -213,9 +213,11 @@ def pyCovered : TraitType → Bool
   | .enum _ | .map .. | .noneTrait | .this _ => true
   | _ => false
 
+theorem selfCfgE_noFast (t : TraitType) : selfCfgE E (.noFast t) = selfCfgE E t := by
+  funext a; simp [selfCfgE]
+
 theorem srcPy_noFast (t : TraitType) (v : Val) : srcPy E (.noFast t) v = srcPy E t v := by
-  simp only [srcPy, pyMethodOf]
-  rfl
+  simp only [srcPy, pyMethodOf, selfCfgE_noFast]
 
 theorem srcPy_eq (hE : CastIdem E) : ∀ (t : TraitType) (v : Val), pyCovered t = true →
     srcPy E t v = some (pyValidate E t v)
